@@ -388,18 +388,18 @@ func ruleBuilder(c *Check, p *Prog, g *Graph, step *ssa.Function) {
 	}
 	check("DataHash", strings.Join(dhs, " | "), okDH && sawEmpty && sawCommit, "DataHash must be the commitment of exactly the built data, or the empty-hash constant")
 	// the empty constant only when there are no transactions: the store of the constant is guarded by emptiness of the batch
-	for _, n := range bg.Select(func(n *Node) bool {
+	emptyStores := bg.Select(func(n *Node) bool {
 		st, ok := n.In.(*ssa.Store)
 		if !ok {
 			return false
 		}
-		gl, isG := st.Val.(*ssa.UnOp)
-		if !isG {
-			return false
-		}
-		gv, isGl := gl.X.(*ssa.Global)
-		return isGl && gv.Name() == "dataHashForEmptyTxs"
-	}) {
+		t := TermOf(st.Val, n.Ctx).unconv()
+		return t.Op == "global" && t.Name == "block.dataHashForEmptyTxs"
+	})
+	if len(emptyStores) == 0 {
+		c.Unk(rule, fnShort(h.ctx.Fn)+" ⟂ empty-hash-iff-empty", bfn, "", "anchor lost: no store of the empty-hash constant in the builder")
+	}
+	for _, n := range emptyStores {
 		// on every path to this store, "isEmpty" holds: Batch == nil or len(Transactions) == 0; equivalently no Txs store precedes it
 		path := bg.PathAvoiding([]*Node{bg.Entry}, nodeSet([]*Node{n}), nil)
 		_ = path
@@ -413,14 +413,58 @@ func ruleBuilder(c *Check, p *Prog, g *Graph, step *ssa.Function) {
 		}
 		_ = txStore
 		fs := FactSet(bg.NecessaryEdges(nodeSet([]*Node{n})))
-		okE := false
+		// alternatives: a fact on a short-circuit phi stands for the disjunction of its incoming edges
+		alts := []FactSet{fs}
 		for _, f := range fs {
-			s := f.Cond.String()
-			if strings.Contains(s, "Transactions") || strings.Contains(s, "Batch") {
-				okE = true
+			if phi, ok := f.Cond.V.(*ssa.Phi); ok && f.Cond.Op == "phi" {
+				if a := bg.BoolPhiDNF(phi, bg.RootCtx, f.Pol); len(a) > 0 {
+					alts = a
+				}
 			}
 		}
-		check("empty-hash-iff-empty", strings.Join(fs.Strings(), " ; "), okE, "the empty-hash constant may be used only on the branch where the batch has no transactions")
+		// every alternative says: there is no batch, or the batch has no transactions
+		noTxs := func(f Fact) bool {
+			t, pol := normFact(f.Cond, f.Pol)
+			if t.Op != "bin" || len(t.Args) != 2 {
+				return false
+			}
+			l, r := t.Args[0].unconv(), t.Args[1].unconv()
+			isNil := func(x *Term) bool { return x.Op == "const" && x.Name == "nil" }
+			isZero := func(x *Term) bool { return x.Op == "const" && (x.Name == "0" || strings.HasPrefix(x.Name, "0:")) }
+			lenTxs := func(x *Term) bool {
+				return (x.IsCall("len") || (x.Op == "call" && x.Name == "len")) && len(x.Args) == 1 && strings.HasSuffix(x.Args[0].unconv().String(), ".Transactions")
+			}
+			batchPtr := func(x *Term) bool { return x.Op == "field" && x.Name == "Batch" }
+			switch {
+			case (batchPtr(l) && isNil(r)) || (batchPtr(r) && isNil(l)):
+				return (t.Name == "==") == pol
+			case lenTxs(l) && isZero(r):
+				return (t.Name == "==" && pol) || (t.Name == "!=" && !pol) || (t.Name == ">" && !pol) || (t.Name == "<=" && pol)
+			case lenTxs(r) && isZero(l):
+				return (t.Name == "==" && pol) || (t.Name == "!=" && !pol) || (t.Name == "<" && !pol) || (t.Name == ">=" && pol)
+			}
+			return false
+		}
+		okE := len(alts) > 0
+		var bad string
+		for _, a := range alts {
+			a = p.closeFacts(a, 2)
+			hit := false
+			for _, f := range a {
+				if noTxs(f) {
+					hit = true
+				}
+			}
+			if !hit {
+				okE = false
+				bad = strings.Join(a.Strings(), " ; ")
+			}
+		}
+		desc := strings.Join(fs.Strings(), " ; ")
+		if bad != "" {
+			desc = "alternative without an emptiness test: " + bad
+		}
+		check("empty-hash-iff-empty", desc, okE, "the empty-hash constant (and an empty transaction list) may be used only where there is no batch or len(batch.Transactions) == 0; any other notion of emptiness drops transactions the batch contains")
 	}
 }
 
